@@ -1,8 +1,95 @@
-import TjdModel.Agg.Others
+/-
+  C17 — Impartial aggregators treat every objective alike.
+
+  PROPERTY THEOREMS ONLY (statements fixed; helper lemmas in TjdLemmas/ImpartialLemmas.lean).
+  Over an arbitrary linearly ordered field; row norms `d` (IMTL-G, ConFIG) and the eigen-decomposition
+  (Aligned-MTL) are kernels whose answers are certificate-checked by the model.
+-/
+import Mathlib.Algebra.Order.Field.Basic
+import TjdModel.Agg.Spec2
+import TjdLemmas.ImpartialLemmas
 namespace Tjd.Props.C17
 open Tjd Tjd.Agg
 
-theorem rejects_ndim (k : AggKind) (f : Bool) : rejects k [3] f = true := by
-  simp [rejects]
+variable {α : Type} [Field α] [LinearOrder α] [IsStrictOrderedRing α]
+
+/-! ### IMTL-G -/
+
+/-- outside the guard branch the weights sum to one … -/
+theorem imtlg_sum_one (J : Mat α) (d : Vec α) (guard : α) (hg : 0 ≤ guard) (w : Vec α)
+    (h : imtlgWeights J d guard = some w) (hnz : ∃ x ∈ w, x ≠ 0) : w.sum = 1 := by
+  sorry
+
+/-- … and the result has the same projection onto the direction of every row: `⟨j_i, A(J)⟩ / |j_i|` is
+    the same number for all `i` (`d_i = |j_i|`) -/
+theorem imtlg_equal_projections (J : Mat α) (m n : Nat) (hJ : MatWF J m n) (d : Vec α)
+    (hd : d.length = m) (guard : α) (hg : 0 ≤ guard) (w : Vec α)
+    (h : imtlgWeights J d guard = some w) (hnz : ∃ x ∈ w, x ≠ 0) :
+    ∃ κ : α, ∀ i, i < m → dot (J.getD i []) (combine n J w) = κ * d.getD i 0 := by
+  sorry
+
+/-- on the all-zero matrix every weighted aggregator (IMTL-G, Aligned-MTL, …) returns the zero vector,
+    whatever weights it computes -/
+theorem zero_matrix_zero_vector (m n : Nat) (w : Vec α) :
+    combine n (List.replicate m (zeros n : Vec α)) w = zeros n := by
+  sorry
+
+/-! ### ConFIG -/
+
+/-- the returned vector is a positive multiple of `best = Uᵀ (U Uᵀ)⁻¹ w`, whose inner product with every
+    unit row `u_i = j_i / d_i` is exactly the weight `w_i`: same positive cosine to every row by default,
+    cosines proportional to the preference vector otherwise -/
+theorem config_cosines (J : Mat α) (m n : Nat) (hJ : MatWF J m n) (d w : Vec α) (hd : d.length = m)
+    (hw : w.length = m) (hdpos : ∀ x ∈ d, 0 < x) (hwpos : ∀ x ∈ w, 0 < x) (x : Vec α)
+    (h : configVec J d w n = some x) (hx : ∃ c ∈ x, c ≠ 0) :
+    ∃ t : α, 0 < t ∧ ∀ i, i < m →
+      dot ((J.getD i []).map (· / d.getD i 0)) x = t * w.getD i 0 := by
+  sorry
+
+/-- the length of the returned vector equals the sum of its projections on the rows:
+    `|x| = Σ_i ⟨j_i, x/|x|⟩`, i.e. (multiplying by `|x|`, no square root) `⟨x, x⟩ = Σ_i ⟨j_i, x⟩` -/
+theorem config_length (J : Mat α) (m n : Nat) (hJ : MatWF J m n) (d w : Vec α) (hd : d.length = m)
+    (hw : w.length = m) (x : Vec α) (h : configVec J d w n = some x) :
+    dot x x = (J.map fun row => dot row x).sum := by
+  sorry
+
+/-- on the all-zero matrix (unit rows replaced by zeros as `nan_to_num` does) ConFIG returns zero;
+    in the model: whenever `best` vanishes the output is the zero vector -/
+theorem config_zero_best (J : Mat α) (d w : Vec α) (n : Nat) (x : Vec α)
+    (h : configVec J d w n = some x)
+    (hz : ∀ y, combine n (List.zipWith (fun row di => row.map (· / di)) J d) y = zeros n) :
+    x = zeros n := by
+  sorry
+
+/-! ### Aligned-MTL -/
+
+/-- with a full set of orthonormal eigenvectors (independent rows), the balance transformation `B`
+    (column `b` of `B` = the weights returned for the one-hot preference `e_b`) satisfies
+    `B (J Jᵀ) B = σ_min² I`: the re-balanced rows `B J` are mutually orthogonal and all as long as the
+    smallest singular value of `J` -/
+theorem aligned_balanced (J : Mat α) (m n : Nat) (hJ : MatWF J m n) (vecs : Mat α) (sigma : Vec α)
+    (hfull : vecs.length = m) (hm : 0 < m) (hv : ∀ v ∈ vecs, v.length = m)
+    (hcert : alignedCert (gram J) vecs sigma = true) (a b : Nat) (ha : a < m) (hb : b < m)
+    (wa wb : Vec α)
+    (h₁ : alignedWeights J vecs sigma (oneHot m a) = some wa)
+    (h₂ : alignedWeights J vecs sigma (oneHot m b) = some wb) :
+    dot (combine n J wa) (combine n J wb) =
+      if a = b then vmin sigma 1 * vmin sigma 1 else 0 := by
+  sorry
+
+/-- the result is the preference-weighted combination of the re-balanced rows: the weights are linear in
+    the preference vector -/
+theorem aligned_linear_in_pref (J : Mat α) (vecs : Mat α) (sigma : Vec α) (m : Nat)
+    (hJ : J.length = m) (hv : ∀ v ∈ vecs, v.length = m) (w₁ w₂ : Vec α) (h₁ : w₁.length = m)
+    (h₂ : w₂.length = m) (r₁ r₂ r : Vec α) (hs : sigma ≠ [])
+    (e₁ : alignedWeights J vecs sigma w₁ = some r₁) (e₂ : alignedWeights J vecs sigma w₂ = some r₂)
+    (e : alignedWeights J vecs sigma (vadd w₁ w₂) = some r) : r = vadd r₁ r₂ := by
+  sorry
+
+/-- rank 0 (all-zero matrix): identity transformation, hence the zero vector -/
+theorem aligned_zero_matrix (m n : Nat) (w : Vec α) (hw : w.length = m) :
+    alignedWeights (List.replicate m (zeros n : Vec α)) [] [] w = some w ∧
+    combine n (List.replicate m (zeros n : Vec α)) w = zeros n := by
+  sorry
 
 end Tjd.Props.C17
